@@ -24,7 +24,8 @@ class Transition(object):
         self.state = state
         self.tok = tok
         self.path = path
-        self.events = path.events
+        # the marker of a call that was replaced by its body (a helper split off later) is not an event of its own
+        self.events = [e for e in path.events if not (e.kind == 'call' and e.inlined)]
         self.assume = path.assume
         self.model = model
         if path.end == 'stop':
@@ -307,21 +308,48 @@ class ParserModel(object):
                 # parameter: force_state -> look at every caller
                 pn = fn.param_names.get(v.name)
                 idx = [p.name for p in fn.params].index(v.name)
+                def arg_consts(g, a, line, depth=0):
+                    """constants that can be passed as this argument (through phis, selects and helper parameters)"""
+                    if a.kind == 'int':
+                        out.add(a.ival)
+                        return
+                    if a.kind != 'reg' or depth > 4:
+                        unknown.append((g.name, line))
+                        return
+                    gd = g.defs.get(a.name)
+                    if gd is None:
+                        # a parameter of a helper: whatever the helper's callers pass
+                        names = [p_.name for p_ in g.params]
+                        if a.name in names and g.name in self.ctx.unknown_funcs:
+                            k = names.index(a.name)
+                            found = False
+                            for h in self.ctx.all_funcs():
+                                for c2 in h.calls(g.name):
+                                    if k < len(c2.args):
+                                        found = True
+                                        arg_consts(h, c2.args[k], c2.line, depth + 1)
+                            if found:
+                                return
+                        unknown.append((g.name, line))
+                    elif gd.op == 'phi':
+                        for x in gd.ops:
+                            arg_consts(g, x, line, depth + 1)
+                    elif gd.op == 'select':
+                        arg_consts(g, gd.ops[1], line, depth + 1)
+                        arg_consts(g, gd.ops[2], line, depth + 1)
+                    elif gd.op == 'call' and (gd.callee_name() or '') in self.ctx.unknown_funcs:
+                        # computed by a helper: whatever that helper can return
+                        h = self.ctx.func(gd.callee_name())
+                        rets = [i_ for i_ in h.instrs() if i_.op == 'ret' and i_.ops]
+                        if not rets:
+                            unknown.append((g.name, line))
+                        for r_ in rets:
+                            arg_consts(h, r_.ops[0], r_.line, depth + 1)
+                    else:
+                        unknown.append((g.name, line))
                 for g in self.ctx.all_funcs():
                     for call in g.calls('cfg_parse_internal'):
-                        a = call.args[idx]
-                        if a.kind == 'int':
-                            out.add(a.ival)
-                        elif a.kind == 'reg':
-                            gd = g.defs.get(a.name)
-                            if gd is not None and gd.op == 'phi':
-                                for x in gd.ops:
-                                    if x.kind == 'int':
-                                        out.add(x.ival)
-                                    else:
-                                        unknown.append((g.name, call.line))
-                            else:
-                                unknown.append((g.name, call.line))
+                        arg_consts(g, call.args[idx], call.line)
                 return
             if d.op == 'phi':
                 for x in d.ops:
